@@ -9,17 +9,18 @@ import (
 )
 
 // Values (boxed in `value`):
-//   *Term                 bool, all integer kinds, float32/64 (concrete = constant term)
-//   string | symstr       strings (symstr has >=1 symbolic byte; each element a BV8 term)
-//   []value               slices (Go aliasing gives backing-array sharing)
-//   array, structure, tuple
-//   *value                pointers
-//   iface                 interfaces
-//   *hmap                 maps
-//   *channel              channels
-//   *ssa.Function, *ssa.Builtin, *closure   functions
-//   timeVal               time.Time (opaque model)
-//   *native               engine-side opaque objects (files, timers, ...)
+//
+//	*Term                 bool, all integer kinds, float32/64 (concrete = constant term)
+//	string | symstr       strings (symstr has >=1 symbolic byte; each element a BV8 term)
+//	[]value               slices (Go aliasing gives backing-array sharing)
+//	array, structure, tuple
+//	*value                pointers
+//	iface                 interfaces
+//	*hmap                 maps
+//	*channel              channels
+//	*ssa.Function, *ssa.Builtin, *closure   functions
+//	timeVal               time.Time (opaque model)
+//	*native               engine-side opaque objects (files, timers, ...)
 type value = any
 
 type tuple []value
